@@ -23,7 +23,7 @@ MUST_REACH = ["shape:tall", "shape:wide", "shape:square", "rank:deficient", "ran
 
 C = 1e3
 
-FULL = ["graded_columns", "graded_rows", "gauss", "spectrum", "int", "pure_imag", "single_axis", "scaled_small", "scaled_big", "layout", "real_only", "unit_identity",
+FULL = ["graded_last_pivot", "graded_columns", "graded_rows", "gauss", "spectrum", "int", "pure_imag", "single_axis", "scaled_small", "scaled_big", "layout", "real_only", "unit_identity",
         "upper_tri", "diag"]
 DEF = ["lowrank", "zero_column", "zero_column_negzero", "zero_column_masked", "dup_column", "dep_column", "zero_matrix", "zero_row", "rank1", "int_lowrank", "leading_deficient"]
 
@@ -185,6 +185,14 @@ def _full(spec, ctx, R):
             A = A * (10.0 ** ex)[None, :]
         else:
             A = A * (10.0 ** ex)[:, None]
+    elif c == "graded_last_pivot":
+        # the LAST pivot column (index min(m,n)-1) scaled far below the others by an exact power of two (2^-60, 2^-200, 2^-500): for wide
+        # inputs the trailing columns of R only hang on that pivot row
+        if "dims" not in spec:
+            m, n = [(3, 6), (2, 5), (4, 7), (3, 4), (5, 9), (6, 4), (4, 4), (1, 3), (2, 2)][spec["idx"] % 9]
+        A = refq.randq(rng, m, n) if rng.random() < 0.7 else gen.entries(rng, "int", m, n) + refq.diagq(np.full(min(m, n), 5.0), m, n)
+        sc = np.ones(n); sc[min(m, n) - 1] = 2.0 ** float(rng.choice([-60.0, -200.0, -500.0, -40.0]))
+        A = A * sc[None, :]
     elif c in ("int", "pure_imag", "single_axis"):
         A = gen.entries(rng, c, m, n)
     elif c == "scaled_small":
@@ -197,7 +205,14 @@ def _full(spec, ctx, R):
         A = gen.structured(rng, c, m, n)
     else:
         raise ValueError(c)
-    tags = _tags(ctx, A, [c])
+    if c in ("graded_columns", "graded_last_pivot"):
+        # generator ground truth: a full-rank matrix times a non-singular diagonal matrix from the right.  Householder QR is invariant under
+        # column scaling (A D = Q (R D)), so the input is full rank in the sense that matters and NO rank-deficiency tag applies, however
+        # small the numerical singular values of the scaled matrix are (a threshold-based tag would hand these cases to the findings)
+        tags = [c] + (["wide"] if m < n else [])
+        ctx.hit("rank:full_by_construction_graded")
+    else:
+        tags = _tags(ctx, A, [c])
     ctx.distinct(A, nontrivial=m * n >= 2 and refq.fro(A) > 0)
     judge(ctx, R, A, "qr_qua", tags)
     if spec["idx"] % 29 == 0:
